@@ -1306,3 +1306,104 @@ Proof.
   - now apply set_eqb_equiv.
   - now apply set_eqb_equiv.
 Qed.
+
+(* ================================================================================================ *)
+(* Part 7: the instruction part — executed_instructions and executed_assertions                     *)
+(* ================================================================================================ *)
+Lemma ilen_imerge a b : ilen (imerge a b) = ilen a + ilen b.
+Proof. unfold ilen. simpl. rewrite app_length. lia. Qed.
+
+Lemma shift_asserts_app k l1 l2 : shift_asserts k (l1 ++ l2) = shift_asserts k l1 ++ shift_asserts k l2.
+Proof. apply map_app. Qed.
+
+Lemma shift_asserts_shift j k l : shift_asserts j (shift_asserts k l) = shift_asserts (k + j) l.
+Proof.
+  unfold shift_asserts. rewrite map_map. apply map_ext. intros [p a]. simpl. f_equal. lia.
+Qed.
+
+Lemma shift_asserts_0 l : shift_asserts 0 l = l.
+Proof.
+  unfold shift_asserts. rewrite <- (map_id l) at 2. apply map_ext. intros [p a]. simpl. f_equal. lia.
+Qed.
+
+(* grouping never matters for positions: ((a+b)+c) = (a+(b+c)), literally *)
+Theorem imerge_assoc a b c : imerge (imerge a b) c = imerge a (imerge b c).
+Proof.
+  unfold imerge at 1 3. cbn [instrs asserts]. rewrite ilen_imerge. f_equal.
+  - unfold imerge. cbn [instrs]. now rewrite app_assoc.
+  - unfold imerge at 1 2. cbn [asserts]. rewrite shift_asserts_app, shift_asserts_shift, <- app_assoc, (Z.add_comm (ilen b)).
+    reflexivity.
+Qed.
+
+Theorem imerge_empty_l a : imerge iempty a = a.
+Proof. destruct a as [i s]. unfold imerge, ilen. simpl. now rewrite shift_asserts_0. Qed.
+
+Theorem imerge_empty_r a : imerge a iempty = a.
+Proof. destruct a as [i s]. unfold imerge. simpl. now rewrite !app_nil_r. Qed.
+
+Lemma ifold_imerge ts acc : fold_left imerge ts acc = imerge acc (imerge_all ts).
+Proof.
+  revert acc. induction ts as [|t ts IH]; intro acc; simpl.
+  - unfold imerge_all. simpl. now rewrite imerge_empty_r.
+  - rewrite IH. unfold imerge_all. simpl. rewrite (IH (imerge iempty t)), imerge_empty_l.
+    now rewrite imerge_assoc.
+Qed.
+
+Theorem imerge_all_app ts1 ts2 : imerge_all (ts1 ++ ts2) = imerge (imerge_all ts1) (imerge_all ts2).
+Proof. unfold imerge_all at 1. rewrite fold_left_app. apply ifold_imerge. Qed.
+
+(* any tree of merge / analyze_results calls = the flat left-to-right merge of its leaves *)
+Theorem ieval_flat m : ieval m = imerge_all (ileaves m).
+Proof.
+  induction m as [t|l IHl r IHr]; simpl.
+  - unfold imerge_all. simpl. now rewrite imerge_empty_l.
+  - now rewrite imerge_all_app, IHl, IHr.
+Qed.
+
+Theorem ieval_grouping_independent m m' : ileaves m = ileaves m' -> ieval m = ieval m'.
+Proof. intro H. now rewrite !ieval_flat, H. Qed.
+
+(* positions stay inside the trace, and every assertion keeps pointing at its own instruction *)
+Lemma iwf_spec t : iwf t = true <-> forall pa, In pa (asserts t) -> 0 <= fst pa < ilen t.
+Proof.
+  unfold iwf. rewrite forallb_forall. split; intros H pa Hpa; specialize (H pa Hpa).
+  - apply andb_true_iff in H. destruct H as [H1 H2]. apply Z.leb_le in H1. apply Z.ltb_lt in H2. lia.
+  - apply andb_true_iff. split; [apply Z.leb_le|apply Z.ltb_lt]; lia.
+Qed.
+
+Theorem iwf_imerge a b : iwf a = true -> iwf b = true -> iwf (imerge a b) = true.
+Proof.
+  rewrite !iwf_spec. intros Ha Hb pa Hpa. rewrite ilen_imerge. cbn [imerge asserts] in Hpa.
+  apply in_app_or in Hpa. destruct Hpa as [H|H].
+  - specialize (Ha pa H). unfold ilen in *. lia.
+  - unfold shift_asserts in H. apply in_map_iff in H. destruct H as [[p x] [<- H]].
+    specialize (Hb _ H). simpl in *. unfold ilen in *. lia.
+Qed.
+
+Theorem target_imerge_left a b pos : 0 <= pos < ilen a -> target (imerge a b) pos = target a pos.
+Proof.
+  intro H. unfold target, ilen in *. cbn [imerge instrs]. apply nth_error_app1. lia.
+Qed.
+
+Theorem target_imerge_right a b pos : 0 <= pos -> target (imerge a b) (pos + ilen a) = target b pos.
+Proof.
+  intro H. unfold target, ilen. cbn [imerge instrs]. rewrite nth_error_app2 by lia. f_equal. lia.
+Qed.
+
+Theorem asserts_imerge a b :
+  asserts (imerge a b) = asserts a ++ map (fun pa => (fst pa + ilen a, snd pa)) (asserts b) /\
+  map snd (asserts (imerge a b)) = map snd (asserts a) ++ map snd (asserts b).
+Proof.
+  split; [reflexivity|]. cbn [imerge asserts]. rewrite map_app. f_equal.
+  unfold shift_asserts. rewrite map_map. reflexivity.
+Qed.
+
+Definition ex_ia : itrace := {| instrs := [10; 11; 12]; asserts := [(2, 0)] |}.
+Definition ex_ib : itrace := {| instrs := [20; 21]; asserts := [(1, 1)] |}.
+Definition ex_ic : itrace := {| instrs := [30; 31; 32; 33]; asserts := [(0, 2); (3, 3)] |}.
+Example ex_itraces :
+  iwf ex_ia = true /\ iwf ex_ib = true /\ iwf ex_ic = true /\
+  asserts (imerge (imerge ex_ia ex_ib) ex_ic) = [(2, 0); (4, 1); (5, 2); (8, 3)] /\
+  asserts (imerge ex_ia (imerge ex_ib ex_ic)) = [(2, 0); (4, 1); (5, 2); (8, 3)] /\
+  imerge ex_ia ex_ib <> imerge ex_ib ex_ia.
+Proof. repeat split. discriminate. Qed.
